@@ -133,3 +133,39 @@ def plane_capsule_contracts():
     c['mjraw_PlaneSphere'] = ps
     c['mjc_PlaneCapsule'] = PLANE_CAPSULE
     return c
+
+
+# the mjc_* wrappers of the sphere colliders: the raw collider is handed the arrays of the two geoms (positions, frames, sizes)
+_GX = lambda g, k: 'd.geom_xpos[3*%s + %d]' % (g, k)
+W_DEFS = {
+    'WD2': ' + '.join('(%s - %s)*(%s - %s)' % (_GX('g2', k), _GX('g1', k), _GX('g2', k), _GX('g1', k)) for k in range(3)),
+    'WN': 'lambda k: d.geom_xmat[9*g1 + 2 + 3*k]',
+    'WCD': ' + '.join('(%s - %s)*WN(%d)' % (_GX('g2', k), _GX('g1', k), k) for k in range(3)),
+    'R1': 'm.geom_size[3*g1]', 'R2': 'm.geom_size[3*g2]',
+}
+_WP = {'m': {'n': 1, 'ptrfields': {'geom_size': {'len': '3 * m.ngeom'}}},
+       'd': {'n': 1, 'ptrfields': {'geom_xpos': {'len': '3 * m.ngeom'}, 'geom_xmat': {'len': '9 * m.ngeom'}}}, 'con': {'n': 1}}
+_WG = '0 <= g1 and g1 < m.ngeom and 0 <= g2 and g2 < m.ngeom and m.ngeom < 2**20'
+WRAPPERS = {
+    'mjc_PlaneSphere': {
+        'params': _WP, 'defs': W_DEFS,
+        'requires': {'geoms': _WG, 'unit_plane_normal': 'WN(0)*WN(0) + WN(1)*WN(1) + WN(2)*WN(2) == 1', 'radius': 'R2 >= 0'},
+        'ensures': {'reported_iff_within_margin': '(result == 1) == (WCD - R2 <= margin)', 'zero_or_one': 'result == 0 or result == 1',
+                    'dist_is_signed_surface_distance': 'implies(result == 1, con.dist == WCD - R2)',
+                    'normal_is_plane_normal': 'implies(result == 1, con.normal[0] == WN(0) and con.normal[1] == WN(1) and con.normal[2] == WN(2))'},
+        'no_error': True},
+    'mjc_SphereSphere': {
+        'params': _WP, 'defs': W_DEFS,
+        'requires': {'geoms': _WG, 'radii': 'R1 >= 0 and R2 >= 0', 'reach': 'margin + R1 + R2 >= 0'},
+        'ensures': {'reported_iff_within_margin': '(result == 1) == (WD2 <= (margin + R1 + R2) * (margin + R1 + R2))', 'zero_or_one': 'result == 0 or result == 1',
+                    'dist_is_gap_between_surfaces': 'implies(result == 1, (con.dist + R1 + R2) * (con.dist + R1 + R2) == WD2 and con.dist + R1 + R2 >= 0)'},
+        'no_error': True},
+}
+
+
+def wrapper_contracts():
+    c = dict(CONTRACTS)
+    for k in ('mjraw_PlaneSphere', 'mjraw_SphereSphere'):
+        c[k] = dict(CONTRACTS[k], assumed=True, assigns=['con[*]'])
+    c.update(WRAPPERS)
+    return c
